@@ -1127,3 +1127,725 @@ Proof.
 Qed.
 
 End Sim.
+
+Lemma bmem_In x l : bmem x l = true <-> In x l.
+Proof.
+  unfold bmem. rewrite existsb_exists. split.
+  - intros [y [Hi He]]. apply bytes_eqb_eq in He. subst. exact Hi.
+  - intro Hi. exists x. split; [exact Hi | apply bytes_eqb_refl].
+Qed.
+Lemma bmem_false x l : ~ In x l -> bmem x l = false.
+Proof. intro H. destruct (bmem x l) eqn:E; [apply bmem_In in E; contradiction | reflexivity]. Qed.
+Lemma bmem_app x l1 l2 : bmem x (l1 ++ l2) = bmem x l1 || bmem x l2.
+Proof. unfold bmem. apply existsb_app. Qed.
+Lemma is_omit_true t : is_omit t = true -> t = TOmit.
+Proof. destruct t; simpl; congruence. Qed.
+
+Definition kids_sz (ks : list (label * tm)) : N := fold_right (fun (lt : label * tm) acc => tm_size (snd lt) + acc) 0 ks.
+Lemma tm_size_node a m k kids : tm_size (TNode a m k kids) = 1 + kids_sz kids.
+Proof. reflexivity. Qed.
+Lemma tm_bids_node a m k kids :
+  tm_bids (TNode a m k kids) = (match m with Some id => [dec_bytes id] | None => [] end) ++ kids_bids kids.
+Proof. reflexivity. Qed.
+Lemma marks_at_node a m k kids next :
+  marks_at (TNode a m k kids) next =
+  (match m with Some id => [(dec_bytes id, next)] | None => [] end) ++ kids_at marks_at kids (next + 1).
+Proof. reflexivity. Qed.
+
+Lemma NoDup_app_l {A} (l1 l2 : list A) : NoDup (l1 ++ l2) -> NoDup l1.
+Proof.
+  induction l1 as [|x l1 IH]; simpl; intro H; [constructor|].
+  inversion H; subst. constructor; [|apply IH; assumption]. intro Hin. apply H2. apply in_or_app. left. exact Hin.
+Qed.
+Lemma NoDup_app_r {A} (l1 l2 : list A) : NoDup (l1 ++ l2) -> NoDup l2.
+Proof. induction l1 as [|x l1 IH]; simpl; intro H; [exact H|]. inversion H; subst. apply IH. assumption. Qed.
+Lemma NoDup_app_disj {A} (l1 l2 : list A) x : NoDup (l1 ++ l2) -> In x l1 -> In x l2 -> False.
+Proof.
+  induction l1 as [|y l1 IH]; simpl; intros H H1 H2; [contradiction|].
+  inversion H; subst. destruct H1 as [->|H1].
+  - apply H4. apply in_or_app. right. exact H2.
+  - eapply IH; eauto.
+Qed.
+
+Section SimVal.
+Variable M : bytes -> option addr.
+
+Record Post (t : tm) (f : bframe) (sr sr' : bst) : Prop := mkPost {
+  post_next : b_next sr' = b_next sr + tm_size t;
+  post_pend : forall id sl, In (id, sl) (b_pend sr') ->
+                In (id, sl) (b_pend sr) \/ slot_of f = Some sl \/ b_next sr <= fst sl;
+  post_marked : forall id, bfind id (b_marked sr') = if bmem id (tm_bids t) then M id else bfind id (b_marked sr);
+  post_keep : forall p n, hget (b_heap sr) p = Some n -> exists n', hget (b_heap sr') p = Some n';
+}.
+
+Definition SimGoal (t : tm) : Prop :=
+  forall f sr si f' sr',
+    Sim M sr si -> dst_ok f sr -> NoDup (tm_bids t) ->
+    (forall id, In id (tm_bids t) -> bfind id (b_marked sr) = None) ->
+    (forall id x, In (id, x) (marks_at t (b_next sr)) -> M id = Some x) ->
+    eff_val b_ref b_mark t f sr = Some (f', sr') ->
+    exists si', eff_val (oref_i M) omark_i t f si = Some (f', si') /\ Sim M sr' si' /\ Post t f sr sr'.
+
+Lemma sim_kids kids :
+  Forall (fun lt : label * tm => tm_wf (snd lt) -> SimGoal (snd lt)) kids ->
+  Forall (fun lt : label * tm => tm_wf (snd lt)) kids ->
+  forall cf sr si cf' sr' p pend0 done,
+    Sim M sr si ->
+    frame_addr cf = Some p -> kids_fit cf kids ->
+    NoDup (done ++ map fst kids) ->
+    (exists n, hget (b_heap sr) p = Some n) ->
+    p < b_next sr ->
+    (forall id sl, In (id, sl) pend0 -> fst sl < p) ->
+    (forall id sl, In (id, sl) (b_pend sr) -> In (id, sl) pend0 \/ (fst sl = p /\ In (snd sl) done) \/ p < fst sl) ->
+    NoDup (kids_bids kids) ->
+    (forall id, In id (kids_bids kids) -> bfind id (b_marked sr) = None) ->
+    (forall id x, In (id, x) (kids_at marks_at kids (b_next sr)) -> M id = Some x) ->
+    eff_kids (eff_val b_ref b_mark) kids cf sr = Some (cf', sr') ->
+    exists si', eff_kids (eff_val (oref_i M) omark_i) kids cf si = Some (cf', si') /\ Sim M sr' si' /\
+      frame_addr cf' = Some p /\
+      b_next sr' = b_next sr + kids_sz kids /\
+      (forall id sl, In (id, sl) (b_pend sr') -> In (id, sl) pend0 \/ fst sl = p \/ p < fst sl) /\
+      (forall id, bfind id (b_marked sr') = if bmem id (kids_bids kids) then M id else bfind id (b_marked sr)) /\
+      (forall q n, hget (b_heap sr) q = Some n -> exists n', hget (b_heap sr') q = Some n').
+Proof.
+  induction kids as [|[l t] r IH]; intros HG HW cf sr si cf' sr' p pend0 done S Hp Hfit Hnd Hex Hlt Hp0 Hpend Hnb Hun HM H.
+  - simpl in H. inversion H; subst. exists si. simpl. split; [reflexivity|]. split; [exact S|].
+    split; [exact Hp|]. split; [unfold kids_sz; simpl; lia|].
+    split.
+    { intros id sl Hin. destruct (Hpend id sl Hin) as [?|[[? _]|?]]; auto. }
+    split; [intro id; reflexivity|]. intros q n Hq. eauto.
+  - inversion HG as [|x xs Hx Hxs]; subst. inversion HW as [|y ys Hwt Hwr]; subst. simpl in Hx, Hwt.
+    simpl in H. destruct (is_omit t) eqn:Eo.
+    + (* an omitted field *)
+      assert (t = TOmit) by (apply is_omit_true; exact Eo). subst t.
+      assert (Hnd' : NoDup (done ++ map fst r)) by (simpl in Hnd; apply NoDup_remove_1 in Hnd; exact Hnd).
+      simpl in HM. rewrite N.add_0_r in HM.
+      destruct (IH Hxs Hwr cf sr si cf' sr' p pend0 done S Hp (kids_fit_skip _ _ _ _ Hfit Eo) Hnd' Hex Hlt Hp0 Hpend Hnb Hun HM H)
+        as [si' R].
+      exists si'. simpl. exact R.
+    + destruct (kids_fit_step cf p l t r Hp Hfit Eo) as [vf [Ekf [Hslot [Hfit' Hp']]]].
+      rewrite Ekf in H.
+      destruct (eff_val b_ref b_mark t vf sr) as [[cf1 s1]|] eqn:E1; [|discriminate].
+      assert (Hcf1 : cf1 = next_frame vf) by (eapply eff_val_next; eauto). subst cf1.
+      (* the child *)
+      assert (Hdst : dst_ok vf sr).
+      { unfold dst_ok. rewrite Hslot. simpl. split; [exact Hex|].
+        intros [id Hin]. destruct (Hpend _ _ Hin) as [Ha|[[_ Hb]|Hc]].
+        - apply Hp0 in Ha. simpl in Ha. lia.
+        - simpl in Hb. eapply (NoDup_app_disj done (map fst ((l, t) :: r)) l); eauto. left. reflexivity.
+        - simpl in Hc. lia. }
+      unfold kids_bids in Hnb, Hun. simpl in Hnb, Hun. fold (kids_bids r) in Hnb, Hun.
+      destruct (Hx Hwt vf sr si (next_frame vf) s1 S Hdst) as [si1 [Ei1 [S1 P1]]].
+      { eapply NoDup_app_l; eauto. }
+      { intros id Hid. apply Hun. apply in_or_app. left. exact Hid. }
+      { intros id x Hin. apply HM. simpl. apply in_or_app. left. exact Hin. }
+      { exact E1. }
+      (* the rest *)
+      assert (A1 : NoDup ((done ++ [l]) ++ map fst r)) by (rewrite <- app_assoc; simpl; exact Hnd).
+      assert (A2 : exists n, hget (b_heap s1) p = Some n).
+      { destruct Hex as [n Hn]. eapply (post_keep _ _ _ _ P1); eauto. }
+      assert (A3 : p < b_next s1) by (rewrite (post_next _ _ _ _ P1); lia).
+      assert (A4 : forall id sl, In (id, sl) (b_pend s1) ->
+                     In (id, sl) pend0 \/ (fst sl = p /\ In (snd sl) (done ++ [l])) \/ p < fst sl).
+      { intros id sl Hin. destruct (post_pend _ _ _ _ P1 _ _ Hin) as [Ha|[Hb|Hc]].
+        - destruct (Hpend _ _ Ha) as [?|[[? ?]|?]]; auto. right. left. split; [assumption|]. apply in_or_app. left. assumption.
+        - rewrite Hslot in Hb. inversion Hb; subst. right. left. simpl. split; [reflexivity|]. apply in_or_app. right. left. reflexivity.
+        - right. right. lia. }
+      assert (A5 : NoDup (kids_bids r)) by (eapply NoDup_app_r; eauto).
+      assert (A6 : forall id, In id (kids_bids r) -> bfind id (b_marked s1) = None).
+      { intros id Hid. rewrite (post_marked _ _ _ _ P1). rewrite bmem_false.
+        - apply Hun. apply in_or_app. right. exact Hid.
+        - intro Hin. exact (NoDup_app_disj _ _ _ Hnb Hin Hid). }
+      assert (A7 : forall id x, In (id, x) (kids_at marks_at r (b_next s1)) -> M id = Some x).
+      { intros id x Hin. apply HM. simpl. apply in_or_app. right. rewrite <- (post_next _ _ _ _ P1). exact Hin. }
+      destruct (IH Hxs Hwr (next_frame vf) s1 si1 cf' sr' p pend0 (done ++ [l]) S1 Hp' Hfit' A1 A2 A3 Hp0 A4 A5 A6 A7 H) as [si' R].
+      destruct R as [Ei' [S' [Hp'' [Hn' [Hpd' [Hm' Hk']]]]]].
+        exists si'. simpl. rewrite Eo, Ekf, Ei1. split; [exact Ei'|]. split; [exact S'|].
+        split; [exact Hp''|].
+        split. { rewrite Hn', (post_next _ _ _ _ P1). unfold kids_sz. simpl. lia. }
+        split; [exact Hpd'|].
+        split.
+        { intro id. rewrite Hm', (post_marked _ _ _ _ P1). unfold kids_bids. simpl. fold (kids_bids r).
+          rewrite bmem_app. destruct (bmem id (kids_bids r)), (bmem id (tm_bids t)); reflexivity. }
+        intros q n Hq. destruct (post_keep _ _ _ _ P1 _ _ Hq) as [n1 Hq1]. eapply Hk'; eauto.
+Qed.
+
+Lemma sim_begin ty e sr si cf s1 :
+  Sim M sr si -> begin_container ty e sr = Some (cf, s1) ->
+  exists s1i, begin_container ty e si = Some (cf, s1i) /\ Sim M s1 s1i /\
+    b_next s1 = b_next sr + 1 /\ b_pend s1 = b_pend sr /\ b_marked s1 = b_marked sr /\
+    (exists n, hget (b_heap s1) (b_next sr) = Some n) /\
+    (forall q n, hget (b_heap sr) q = Some n -> exists n', hget (b_heap s1) q = Some n') /\
+    (cf = FStructKey (b_next sr) \/ cf = FSlice (b_next sr) 0 \/ cf = FMapKey (b_next sr)).
+Proof.
+  intros S H. assert (Hn := sim_next _ _ _ S).
+  assert (Hkeep : forall k ks q n, hget (b_heap sr) q = Some n -> exists n', hget (b_heap (snd (b_alloc k ks sr))) q = Some n').
+  { intros k ks q n Hq. unfold b_alloc. simpl. destruct (q =? b_next sr); eauto. }
+  assert (Hnew : forall k ks, exists n, hget (b_heap (snd (b_alloc k ks sr))) (b_next sr) = Some n).
+  { intros k ks. unfold b_alloc. simpl. rewrite N.eqb_refl. eauto. }
+  destruct ty, e; simpl in H; try discriminate.
+  - destruct (sim_alloc_op M sr si (KStruct 0) zero_fields S) as [Hf Ha].
+    inversion H; subst. exists (snd (b_alloc (KStruct 0) zero_fields si)). split; [unfold begin_container, b_alloc; simpl; rewrite Hn; reflexivity|].
+    split; [exact Ha|]. split; [reflexivity|]. split; [reflexivity|]. split; [reflexivity|].
+    split; [exact (Hnew _ _)|]. split; [exact (Hkeep _ _)|]. left; reflexivity.
+  - destruct (sim_alloc_op M sr si KSlice [] S) as [Hf Ha].
+    inversion H; subst. exists (snd (b_alloc KSlice [] si)). split; [unfold begin_container, b_alloc; simpl; rewrite Hn; reflexivity|].
+    split; [exact Ha|]. split; [reflexivity|]. split; [reflexivity|]. split; [reflexivity|].
+    split; [exact (Hnew _ _)|]. split; [exact (Hkeep _ _)|]. right; left; reflexivity.
+  - destruct (sim_alloc_op M sr si KMap [] S) as [Hf Ha].
+    inversion H; subst. exists (snd (b_alloc KMap [] si)). split; [unfold begin_container, b_alloc; simpl; rewrite Hn; reflexivity|].
+    split; [exact Ha|]. split; [reflexivity|]. split; [reflexivity|]. split; [reflexivity|].
+    split; [exact (Hnew _ _)|]. split; [exact (Hkeep _ _)|]. right; right; reflexivity.
+Qed.
+
+Lemma sim_after_begin k cf s1 s1i s1' :
+  Sim M s1 s1i -> after_begin k cf s1 = Some s1' ->
+  exists s1i', after_begin k cf s1i = Some s1i' /\ Sim M s1' s1i' /\
+    b_next s1' = b_next s1 /\ b_pend s1' = b_pend s1 /\ b_marked s1' = b_marked s1 /\
+    (forall q n, hget (b_heap s1) q = Some n -> exists n', hget (b_heap s1') q = Some n').
+Proof.
+  intros S H. destruct k, cf; simpl in H; try discriminate; inversion H; subst.
+  - eexists. split; [reflexivity|]. split; [apply sim_payload; exact S|]. repeat split; auto.
+    intros q n Hq. unfold b_payload. simpl. destruct (N.eq_dec p q) as [E|E].
+    + rewrite E, hget_hupd_same, Hq. simpl. eauto.
+    + rewrite hget_hupd_other by exact E. eauto.
+  - eexists. split; [reflexivity|]. split; [exact S|]. repeat split; eauto.
+  - eexists. split; [reflexivity|]. split; [exact S|]. repeat split; eauto.
+Qed.
+
+Lemma after_begin_fit k cf s s' p kids :
+  after_begin k cf s = Some s' -> kids_ok k kids ->
+  (cf = FStructKey p \/ cf = FSlice p 0 \/ cf = FMapKey p) -> kids_fit cf kids.
+Proof.
+  intros H [_ Hk] Hc. destruct k, cf; simpl in H; try discriminate; simpl.
+  - exact Hk.
+  - destruct Hc as [Hc|[Hc|Hc]]; inversion Hc; subst. exact Hk.
+  - exact Hk.
+Qed.
+
+Lemma sim_val t : tm_wf t -> SimGoal t.
+Proof.
+  induction t as [| |id|a m k kids IHk] using tm_ind'; intros Hwf f sr si f' sr' S Hdst Hnb Hun HM H.
+  - discriminate.
+  - (* null *)
+    cbn [eff_val] in H. destruct (sim_deliver M _ _ _ _ _ _ S Hdst H) as [si' [Ei [S' [Hn [Hp [Hm Hk]]]]]].
+    exists si'. split; [exact Ei|]. split; [exact S'|].
+    constructor.
+    + rewrite Hn. simpl. lia.
+    + intros id sl Hin. rewrite Hp in Hin. auto.
+    + intro id. rewrite Hm. reflexivity.
+    + exact Hk.
+  - (* reference *)
+    cbn [eff_val] in H. unfold ref_step in H. cbn [eff_val]. unfold ref_step.
+    unfold dst_ok in Hdst.
+    destruct f; try discriminate; simpl in Hdst; destruct Hdst as [Hex Hnp]; inversion H; subst.
+    + eexists. split; [reflexivity|]. split; [apply sim_ref; assumption|].
+      destruct (b_ref_fields (dec_bytes id) (p, l) sr) as [F1 F2].
+      constructor.
+      * rewrite F1. simpl. lia.
+      * intros id0 sl Hin. apply b_ref_pend in Hin. destruct Hin as [Hin|Heq]; [auto|]. inversion Heq; subst. right. left. reflexivity.
+      * intro id0. rewrite F2. reflexivity.
+      * intros q n Hq. eapply b_ref_keep; eauto.
+    + assert (S1 : Sim M (b_set (p, LI n) None sr) (b_set (p, LI n) None si)) by (apply sim_set; assumption).
+      eexists. split; [reflexivity|]. split.
+      { apply sim_ref; [exact S1 | exact Hnp |]. destruct Hex as [n0 Hn0]. eapply b_set_keep; eauto. }
+      destruct (b_ref_fields (dec_bytes id) (p, LI n) (b_set (p, LI n) None sr)) as [F1 F2].
+      constructor.
+      * rewrite F1. simpl. lia.
+      * intros id0 sl Hin. apply b_ref_pend in Hin. destruct Hin as [Hin|Heq]; [auto|]. inversion Heq; subst. right. left. reflexivity.
+      * intro id0. rewrite F2. reflexivity.
+      * intros q n0 Hq. destruct (b_set_keep (p, LI n) None sr q n0 Hq) as [n1 Hq1]. eapply b_ref_keep; eauto.
+    + eexists. split; [reflexivity|]. split; [apply sim_ref; assumption|].
+      destruct (b_ref_fields (dec_bytes id) (p, LK k) sr) as [F1 F2].
+      constructor.
+      * rewrite F1. simpl. lia.
+      * intros id0 sl Hin. apply b_ref_pend in Hin. destruct Hin as [Hin|Heq]; [auto|]. inversion Heq; subst. right. left. reflexivity.
+      * intro id0. rewrite F2. reflexivity.
+      * intros q n Hq. eapply b_ref_keep; eauto.
+  - (* an object *)
+    apply tm_wf_node in Hwf. destruct Hwf as [Hok Hwk].
+    cbn [eff_val] in H. cbn [eff_val].
+    destruct (frame_ty f) as [ty|] eqn:Ety; [|discriminate].
+    destruct (begin_container ty (kind_begin k) sr) as [[cf s1]|] eqn:Eb; [|discriminate].
+    destruct (after_begin k cf s1) as [s1'|] eqn:Ea; [|discriminate].
+    destruct (eff_kids (eff_val b_ref b_mark) kids cf s1') as [[cf' s2]|] eqn:Ek; [|discriminate].
+    destruct (frame_addr cf') as [p'|] eqn:Ep; [|discriminate].
+    set (p := b_next sr) in *.
+    destruct (sim_begin _ _ _ _ _ _ S Eb) as [s1i [Ebi [S1 [N1 [P1 [M1 [X1 [K1 C1]]]]]]]].
+    destruct (sim_after_begin _ _ _ _ _ S1 Ea) as [s1i' [Eai [S1' [N1' [P1' [M1' K1']]]]]].
+    rewrite Ebi, Eai.
+    rewrite tm_bids_node in Hnb, Hun. rewrite marks_at_node in HM.
+    assert (Hfa : frame_addr cf = Some p) by (destruct C1 as [->|[->| ->]]; reflexivity).
+    assert (Hpend0 : forall id sl, In (id, sl) (b_pend sr) -> fst sl < p).
+    { intros id [q l] Hin. destruct (sim_pend _ _ _ S _ _ _ Hin) as [_ [ni [Hi _]]].
+      destruct (sim_exists_r _ _ _ _ _ S Hi) as [nr Hr]. simpl. eapply sim_alloc; eauto. }
+    assert (B1 : kids_fit cf kids) by (eapply after_begin_fit; eauto).
+    assert (B2 : NoDup ([] ++ map fst kids)) by (simpl; destruct Hok as [Hnd _]; exact Hnd).
+    assert (B3 : exists n, hget (b_heap s1') p = Some n) by (destruct X1 as [n Hn]; eapply K1'; eauto).
+    assert (B4 : p < b_next s1') by (rewrite N1', N1; lia).
+    assert (B5 : forall id sl, In (id, sl) (b_pend s1') ->
+                   In (id, sl) (b_pend sr) \/ (fst sl = p /\ In (snd sl) []) \/ p < fst sl).
+    { intros id sl Hin. rewrite P1', P1 in Hin. left. exact Hin. }
+    assert (B6 : NoDup (kids_bids kids)) by (eapply NoDup_app_r; eauto).
+    assert (B7 : forall id, In id (kids_bids kids) -> bfind id (b_marked s1') = None).
+    { intros id Hid. rewrite M1', M1. apply Hun. apply in_or_app. right. exact Hid. }
+    assert (B8 : forall id x, In (id, x) (kids_at marks_at kids (b_next s1')) -> M id = Some x).
+    { intros id x Hin. apply HM. apply in_or_app. right. rewrite N1', N1 in Hin. exact Hin. }
+    destruct (sim_kids kids IHk Hwk cf s1' s1i' cf' s2 p (b_pend sr) [] S1' Hfa B1 B2 B3 B4 Hpend0 B5 B6 B7 B8 Ek)
+      as [s2i [Eki [S2 [Hp2 [N2 [P2 [M2 K2]]]]]]].
+    rewrite Eki. rewrite Hp2 in Ep. inversion Ep; subst p'. rewrite Hp2.
+      (* the marker *)
+      set (s3 := match m with Some id => b_mark (dec_bytes id) p s2 | None => s2 end) in *.
+      set (s3i := match m with Some id => omark_i (dec_bytes id) p s2i | None => s2i end).
+      assert (S3 : Sim M s3 s3i).
+      { unfold s3, s3i. destruct m as [id|]; [|exact S2]. apply sim_mark; [exact S2| |].
+        - apply HM. apply in_or_app. left. left. reflexivity.
+        - rewrite M2. simpl in Hnb. inversion Hnb; subst. rewrite bmem_false by assumption.
+          rewrite M1', M1. apply Hun. left. reflexivity. }
+      assert (P3 : forall e, In e (b_pend s3) -> In e (b_pend s2)).
+      { unfold s3. destruct m as [id|]; [|auto]. intros e He. rewrite b_mark_unfold in He. simpl in He.
+        apply filter_In in He. tauto. }
+      assert (K3 : forall q n, hget (b_heap s2) q = Some n -> exists n', hget (b_heap s3) q = Some n').
+      { unfold s3. destruct m as [id|]; [|eauto]. intros q n Hq. eapply b_mark_keep; eauto. }
+      assert (N3 : b_next s3 = b_next s2).
+      { unfold s3. destruct m as [id|]; [|reflexivity]. rewrite b_mark_unfold. reflexivity. }
+      assert (Kall : forall q n, hget (b_heap sr) q = Some n -> exists n', hget (b_heap s3) q = Some n').
+      { intros q n Hq. destruct (K1 _ _ Hq) as [n1 Hq1]. destruct (K1' _ _ Hq1) as [n2 Hq2].
+        destruct (K2 _ _ Hq2) as [n3 Hq3]. eapply K3; eauto. }
+      assert (Hdst3 : dst_ok f s3).
+      { unfold dst_ok in *. destruct (slot_of f) as [[q0 l0]|]; [|exact I]. simpl in *.
+        destruct Hdst as [[n0 Hn0] Hnp]. split; [eapply Kall; eauto|].
+        intros [id Hin]. apply P3 in Hin. destruct (P2 _ _ Hin) as [Ha|[Hb|Hc]].
+        - apply Hnp. exists id. exact Ha.
+        - simpl in Hb. assert (q0 < p) by (eapply sim_alloc; eauto). lia.
+        - simpl in Hc. assert (q0 < p) by (eapply sim_alloc; eauto). lia. }
+      destruct (sim_deliver M _ _ _ _ _ _ S3 Hdst3 H) as [si' [Ei [S' [Hn' [Hp' [Hm' Hk']]]]]].
+      exists si'. split; [exact Ei|]. split; [exact S'|].
+      constructor.
+      * rewrite Hn', N3, N2, N1', N1, tm_size_node. fold p. fold (kids_sz kids). lia.
+      * intros id sl Hin. rewrite Hp' in Hin. apply P3 in Hin. destruct (P2 _ _ Hin) as [Ha|[Hb|Hc]].
+        -- left. exact Ha.
+        -- right. right. fold p. lia.
+        -- right. right. fold p. lia.
+      * intro id. rewrite Hm'. rewrite tm_bids_node. unfold s3. destruct m as [id0|].
+        -- rewrite b_mark_unfold. simpl.
+           destruct (bytes_eqb id (dec_bytes id0)) eqn:E.
+           ++ apply bytes_eqb_eq in E. subst. symmetry. apply HM. apply in_or_app. left. left. reflexivity.
+           ++ rewrite M2, M1', M1. reflexivity.
+        -- simpl. rewrite M2, M1', M1. reflexivity.
+      * intros q n Hq. destruct (Kall _ _ Hq) as [n3 Hq3]. eapply Hk'; eauto.
+Qed.
+
+End SimVal.
+
+(* ---- the setters still waiting at the end were registered by references of the tree ---- *)
+Fixpoint tm_rids (t : tm) : list bytes :=
+  match t with
+  | TRef id => [dec_bytes id]
+  | TNode _ _ _ kids => flat_map (fun lt : label * tm => tm_rids (snd lt)) kids
+  | _ => []
+  end.
+
+Lemma deliver_pend v f s f' s' : deliver v f s = Some (f', s') -> b_pend s' = b_pend s.
+Proof.
+  destruct f; simpl; intro H; try discriminate; try (inversion H; subst; reflexivity).
+  destruct v, t; inversion H; subst; reflexivity.
+Qed.
+Lemma begin_pend ty e s cf s1 : begin_container ty e s = Some (cf, s1) -> b_pend s1 = b_pend s.
+Proof. destruct ty, e; simpl; intro H; try discriminate; inversion H; subst; reflexivity. Qed.
+Lemma after_begin_pend k cf s s' : after_begin k cf s = Some s' -> b_pend s' = b_pend s.
+Proof. destruct k, cf; simpl; intro H; try discriminate; inversion H; subst; reflexivity. Qed.
+
+Lemma pend_ids t : forall f s f' s',
+  eff_val b_ref b_mark t f s = Some (f', s') ->
+  forall id sl, In (id, sl) (b_pend s') -> In (id, sl) (b_pend s) \/ In id (tm_rids t).
+Proof.
+  induction t as [| |id0|a m k kids IHk] using tm_ind'; intros f s f' s' H id sl Hin.
+  - discriminate.
+  - cbn [eff_val] in H. rewrite (deliver_pend _ _ _ _ _ H) in Hin. auto.
+  - cbn [eff_val] in H. unfold ref_step in H.
+    destruct f; try discriminate; inversion H; subst; apply b_ref_pend in Hin;
+      (destruct Hin as [Hin|Heq]; [left; exact Hin | inversion Heq; subst; right; left; reflexivity]).
+  - cbn [eff_val] in H.
+    destruct (frame_ty f) as [ty|]; [|discriminate].
+    destruct (begin_container ty (kind_begin k) s) as [[cf s1]|] eqn:Eb; [|discriminate].
+    destruct (after_begin k cf s1) as [s1'|] eqn:Ea; [|discriminate].
+    destruct (eff_kids (eff_val b_ref b_mark) kids cf s1') as [[cf' s2]|] eqn:Ek; [|discriminate].
+    destruct (frame_addr cf') as [p|]; [|discriminate].
+    rewrite (deliver_pend _ _ _ _ _ H) in Hin.
+    assert (Hin2 : In (id, sl) (b_pend s2)).
+    { destruct m as [id1|]; [|exact Hin]. rewrite b_mark_unfold in Hin. simpl in Hin. apply filter_In in Hin. tauto. }
+    assert (Hk : forall cf s cf' s', eff_kids (eff_val b_ref b_mark) kids cf s = Some (cf', s') ->
+                   forall id sl, In (id, sl) (b_pend s') ->
+                     In (id, sl) (b_pend s) \/ In id (flat_map (fun lt : label * tm => tm_rids (snd lt)) kids)).
+    { clear - IHk. induction kids as [|[l t] r IHr]; intros cf s cf' s' H id sl Hin; simpl in H.
+      - inversion H; subst. auto.
+      - inversion IHk as [|x xs Hx Hxs]; subst. simpl in Hx.
+        destruct (is_omit t).
+        + destruct (IHr Hxs _ _ _ _ H _ _ Hin) as [?|?]; [auto|]. right. simpl. apply in_or_app. right. assumption.
+        + destruct (kid_frame cf l) as [vf|]; [|discriminate].
+          destruct (eff_val b_ref b_mark t vf s) as [[cf1 s1]|] eqn:E1; [|discriminate].
+          destruct (IHr Hxs _ _ _ _ H _ _ Hin) as [Ha|Hb].
+          * destruct (Hx _ _ _ _ E1 _ _ Ha) as [?|?]; [auto|]. right. simpl. apply in_or_app. left. assumption.
+          * right. simpl. apply in_or_app. right. assumption. }
+    destruct (Hk _ _ _ _ Ek _ _ Hin2) as [Ha|Hb]; [|right; exact Hb].
+    left. rewrite (after_begin_pend _ _ _ _ Ea), (begin_pend _ _ _ _ _ Eb) in Ha. exact Ha.
+Qed.
+
+(* ---- what the oracle run leaves in the heap ---- *)
+Lemma kset_kset l v1 v2 ks : kset l v2 (kset l v1 ks) = kset l v2 ks.
+Proof.
+  induction ks as [|[l' r] ks IH]; simpl.
+  - rewrite label_eqb_refl. reflexivity.
+  - destruct (label_eqb l l') eqn:E; simpl; rewrite E; [reflexivity | rewrite IH; reflexivity].
+Qed.
+
+Lemma hget_b_set sl v s q :
+  hget (b_heap (b_set sl v s)) q =
+  if fst sl =? q then option_map (fun n => mkNode (nkind n) (kset (snd sl) v (nkids n))) (hget (b_heap s) q)
+  else hget (b_heap s) q.
+Proof.
+  unfold b_set. simpl. destruct (fst sl =? q) eqn:E.
+  - apply N.eqb_eq in E. subst. apply hget_hupd_same.
+  - apply hget_hupd_other. apply N.eqb_neq. exact E.
+Qed.
+
+(* a tree element sitting at an address: (source address, marker, kind, children, address) *)
+Definition occurrence := (addr * option N * kind * list (label * tm) * addr)%type.
+Inductive occ : tm -> addr -> occurrence -> Prop :=
+| occ_here a m k kids next : occ (TNode a m k kids) next (a, m, k, kids, next)
+| occ_kid a m k kids next pre l t post x :
+    kids = pre ++ (l, t) :: post -> occ t (next + 1 + kids_sz pre) x -> occ (TNode a m k kids) next x.
+
+Lemma kids_sz_app a b : kids_sz (a ++ b) = kids_sz a + kids_sz b.
+Proof. unfold kids_sz. induction a as [|x a IH]; simpl; [reflexivity|]. rewrite IH. lia. Qed.
+
+Lemma kids_sz_cons l t r : kids_sz ((l, t) :: r) = tm_size t + kids_sz r.
+Proof. reflexivity. Qed.
+Lemma kids_sz_nil : kids_sz [] = 0.
+Proof. reflexivity. Qed.
+
+Lemma occ_range t next x : occ t next x -> next <= snd x < next + tm_size t.
+Proof.
+  intro H. induction H as [a m k kids next | a m k kids next pre l t post x E Ho IH].
+  - simpl snd. rewrite tm_size_node. lia.
+  - rewrite tm_size_node. subst kids. rewrite kids_sz_app, kids_sz_cons. lia.
+Qed.
+
+(* no null in a struct field (fields that are nil are left out under the default omit behaviour) *)
+Fixpoint tm_nn (t : tm) : Prop :=
+  match t with
+  | TNode _ _ k kids =>
+      (match k with KStruct _ => forall l t', In (l, t') kids -> t' <> TNull | _ => True end) /\
+      (fix all (ks : list (label * tm)) : Prop := match ks with [] => True | lt :: r => tm_nn (snd lt) /\ all r end) kids
+  | _ => True
+  end.
+Lemma tm_nn_node a m k kids :
+  tm_nn (TNode a m k kids) <->
+  (match k with KStruct _ => forall l t', In (l, t') kids -> t' <> TNull | _ => True end) /\
+  Forall (fun lt : label * tm => tm_nn (snd lt)) kids.
+Proof.
+  cbn [tm_nn]. split; intros [H1 H2]; (split; [exact H1|]); clear H1.
+  - induction kids as [|lt r IH]; [constructor|]. destruct H2 as [Ha Hb]. constructor; [exact Ha | apply IH; exact Hb].
+  - induction kids as [|lt r IH]; [exact I|]. inversion H2; subst. split; [assumption | apply IH; assumption].
+Qed.
+
+Section Ideal.
+Variable M : bytes -> option addr.
+Notation ev_i := (eff_val (oref_i M) omark_i).
+
+Definition val_of (t : tm) (p : addr) : ref :=
+  match t with
+  | TNode _ _ _ _ => Some p
+  | TRef id => M (dec_bytes id)
+  | _ => None
+  end.
+Definition set_dst (f : bframe) (v : ref) (s : bst) : bst :=
+  match slot_of f with Some sl => b_set sl v s | None => s end.
+
+Fixpoint kid_lookup (l : label) (ks : list (label * tm)) (nx : addr) : option (tm * addr) :=
+  match ks with
+  | [] => None
+  | (l', t) :: r => if label_eqb l l' then Some (t, nx) else kid_lookup l r (nx + tm_size t)
+  end.
+Definition base_kids (k : kind) : list (label * ref) := match k with KStruct _ => zero_fields | _ => [] end.
+Definition expect (l : label) (k : kind) (kids : list (label * tm)) (nx : addr) : option ref :=
+  match kid_lookup l kids nx with
+  | Some (t, p) => if is_omit t then kget l (base_kids k) else Some (val_of t p)
+  | None => kget l (base_kids k)
+  end.
+Definition node_spec (s : bst) (x : occurrence) : Prop :=
+  match x with
+  | (a, m, k, kids, p) =>
+      exists n', hget (b_heap s) p = Some n' /\ nkind n' = k /\ forall l, kget l (nkids n') = expect l k kids (p + 1)
+  end.
+
+Definition allocated (s : bst) : Prop := forall q n, hget (b_heap s) q = Some n -> q < b_next s.
+Definition null_ok (t : tm) (f : bframe) : Prop :=
+  match t, f with TNull, FStructVal _ _ _ => False | _, _ => True end.
+
+Lemma allocated_b_set sl v s : allocated s -> allocated (b_set sl v s).
+Proof.
+  intros A q n H. rewrite hget_b_set in H. destruct (fst sl =? q).
+  - destruct (hget (b_heap s) q) eqn:E; [|discriminate]. eapply A; eauto.
+  - eapply A; eauto.
+Qed.
+
+Definition IdealGoal (t : tm) : Prop :=
+  forall f si f' si',
+    allocated si -> null_ok t f ->
+    (match slot_of f with Some sl => fst sl < b_next si | None => True end) ->
+    ev_i t f si = Some (f', si') ->
+    b_next si' = b_next si + tm_size t /\ allocated si' /\
+    (forall q, q < b_next si -> hget (b_heap si') q = hget (b_heap (set_dst f (val_of t (b_next si)) si)) q) /\
+    (f = FTop -> b_root si' = Some (val_of t (b_next si))) /\
+    (f <> FTop -> b_root si' = b_root si) /\
+    (forall x, occ t (b_next si) x -> node_spec si' x).
+
+Lemma ideal_deliver v f si f' si' :
+  allocated si -> (v = None -> match f with FStructVal _ _ _ => False | _ => True end) ->
+  deliver v f si = Some (f', si') ->
+  b_next si' = b_next si /\ allocated si' /\
+  (forall q, hget (b_heap si') q = hget (b_heap (set_dst f v si)) q) /\
+  (f = FTop -> b_root si' = Some v) /\ (f <> FTop -> b_root si' = b_root si).
+Proof.
+  intros A Hv H. destruct f; simpl in H; try discriminate.
+  - inversion H; subst. simpl. repeat split; auto. congruence.
+  - destruct v as [x|]; [|exfalso; apply Hv; reflexivity].
+    assert (si' = b_set (p, l) (Some x) si) by (destruct t; inversion H; reflexivity). subst.
+    repeat split; auto; try (apply allocated_b_set; exact A); discriminate.
+  - inversion H; subst. repeat split; auto; try (apply allocated_b_set; exact A); discriminate.
+  - inversion H; subst. repeat split; auto; try (apply allocated_b_set; exact A); discriminate.
+Qed.
+
+Lemma hget_set_dst_congr f v s1 s2 q :
+  hget (b_heap s1) q = hget (b_heap s2) q ->
+  hget (b_heap (set_dst f v s1)) q = hget (b_heap (set_dst f v s2)) q.
+Proof.
+  intro H. unfold set_dst. destruct (slot_of f) as [sl|]; [|exact H].
+  rewrite !hget_b_set. rewrite H. reflexivity.
+Qed.
+
+Definition occ_kids (kids : list (label * tm)) (nx : addr) (x : occurrence) : Prop :=
+  exists pre l t post, kids = pre ++ (l, t) :: post /\ occ t (nx + kids_sz pre) x.
+
+Lemma ideal_kids kids :
+  Forall (fun lt : label * tm => tm_nn (snd lt) -> IdealGoal (snd lt)) kids ->
+  Forall (fun lt : label * tm => tm_nn (snd lt)) kids ->
+  forall cf si cf' si' p n,
+    frame_addr cf = Some p -> kids_fit cf kids -> NoDup (map fst kids) ->
+    (match cf with FStructKey _ => forall l t', In (l, t') kids -> t' <> TNull | _ => True end) ->
+    allocated si -> hget (b_heap si) p = Some n ->
+    eff_kids ev_i kids cf si = Some (cf', si') ->
+    b_next si' = b_next si + kids_sz kids /\ allocated si' /\ b_root si' = b_root si /\
+    (forall q, q < b_next si -> q <> p -> hget (b_heap si') q = hget (b_heap si) q) /\
+    (exists n', hget (b_heap si') p = Some n' /\ nkind n' = nkind n /\
+       forall l, kget l (nkids n') =
+                 match kid_lookup l kids (b_next si) with
+                 | Some (t, pt) => if is_omit t then kget l (nkids n) else Some (val_of t pt)
+                 | None => kget l (nkids n)
+                 end) /\
+    (forall x, occ_kids kids (b_next si) x -> node_spec si' x).
+Proof.
+  induction kids as [|[l t] r IH]; intros HG HN cf si cf' si' p n Hp Hfit Hnd Hnn A Hn H.
+  - simpl in H. inversion H; subst. rewrite kids_sz_nil. split; [lia|]. split; [exact A|]. split; [reflexivity|].
+    split; [auto|]. split; [exists n; auto|].
+    intros x [pre [l [t [post [E _]]]]]. destruct pre; discriminate.
+  - inversion HG as [|x0 xs Hx Hxs]; subst. inversion HN as [|y0 ys Hnt Hnr]; subst. simpl in Hx, Hnt.
+    simpl in Hnd. inversion Hnd as [|? ? Hnotin Hnd']; subst.
+    assert (Hlt : p < b_next si) by (eapply A; eauto).
+    simpl in H. destruct (is_omit t) eqn:Eo.
+    + assert (t = TOmit) by (apply is_omit_true; exact Eo). subst t.
+      assert (Hnn' : match cf with FStructKey _ => forall l0 t', In (l0, t') r -> t' <> TNull | _ => True end).
+      { destruct cf; auto. intros l0 t' Hin. apply (Hnn l0 t'). right. exact Hin. }
+      destruct (IH Hxs Hnr cf si cf' si' p n Hp (kids_fit_skip _ _ _ _ Hfit Eo) Hnd' Hnn' A Hn H)
+        as [R1 [R2 [R3 [R4 [[n' [R5 [R6 R7]]] R8]]]]].
+      split; [rewrite kids_sz_cons; cbn [tm_size]; lia|]. split; [exact R2|]. split; [exact R3|]. split; [exact R4|].
+      split.
+      * exists n'. split; [exact R5|]. split; [exact R6|]. intro l0. rewrite R7. simpl. rewrite N.add_0_r.
+        destruct (label_eqb l0 l) eqn:El; [|reflexivity].
+        apply label_eqb_eq in El. subst l0. simpl.
+        assert (Hnone : forall nx, kid_lookup l r nx = None).
+        { clear - Hnotin. induction r as [|[l1 t1] r IHr]; intro nx; simpl; [reflexivity|].
+          rewrite label_eqb_neq; [apply IHr; intro; apply Hnotin; right; assumption|].
+          intros ->. apply Hnotin. left. reflexivity. }
+        rewrite Hnone. reflexivity.
+      * intros x [pre [l0 [t0 [post [E Ho]]]]]. destruct pre as [|[l1 t1] pre].
+        -- simpl in E. inversion E; subst. inversion Ho.
+        -- simpl in E. inversion E; subst. apply R8. exists pre, l0, t0, post. split; [reflexivity|].
+           rewrite kids_sz_cons in Ho. cbn [tm_size] in Ho. rewrite N.add_0_l in Ho. exact Ho.
+    + destruct (kids_fit_step cf p l t r Hp Hfit Eo) as [vf [Ekf [Hslot [Hfit' Hp']]]].
+      rewrite Ekf in H.
+      destruct (ev_i t vf si) as [[cf1 s1]|] eqn:E1; [|discriminate].
+      assert (Hcf1 : cf1 = next_frame vf) by (eapply eff_val_next; eauto). subst cf1.
+      assert (Hnull : null_ok t vf).
+      { unfold null_ok. destruct t; auto. destruct vf; auto. destruct cf; simpl in Ekf; try discriminate.
+        - apply (Hnn l TNull); [left; reflexivity | reflexivity].
+        - destruct l; discriminate.
+        - destruct l; discriminate. }
+      assert (Hvf_top : vf <> FTop) by (intros ->; simpl in Hslot; discriminate).
+      destruct (Hx Hnt vf si (next_frame vf) s1 A Hnull) as [Q1 [Q2 [Q3 [_ [Q5 Q6]]]]]; [rewrite Hslot; exact Hlt | exact E1 |].
+      specialize (Q5 Hvf_top).
+      (* node p after the child *)
+      assert (Hn1 : hget (b_heap s1) p = Some (mkNode (nkind n) (kset l (val_of t (b_next si)) (nkids n)))).
+      { rewrite (Q3 p Hlt). unfold set_dst. rewrite Hslot. rewrite hget_b_set. simpl. rewrite N.eqb_refl, Hn. reflexivity. }
+      assert (Hnn' : match next_frame vf with FStructKey _ => forall l0 t', In (l0, t') r -> t' <> TNull | _ => True end).
+      { destruct cf; simpl in Ekf; try discriminate.
+        - destruct l; try discriminate. destruct (field_find _ 0 fields) as [[l' t']|]; [|discriminate].
+          inversion Ekf; subst. simpl. intros l0 t0 Hin. apply (Hnn l0 t0). right. exact Hin.
+        - destruct l; try discriminate. inversion Ekf; subst. exact I.
+        - destruct l; try discriminate. inversion Ekf; subst. exact I. }
+      destruct (IH Hxs Hnr (next_frame vf) s1 cf' si' p _ Hp' Hfit' Hnd' Hnn' Q2 Hn1 H)
+        as [R1 [R2 [R3 [R4 [[n' [R5 [R6 R7]]] R8]]]]].
+      split; [rewrite R1, Q1, kids_sz_cons; lia|]. split; [exact R2|]. split; [congruence|].
+      split.
+      { intros q Hq Hqp. rewrite R4; [|rewrite Q1; lia | exact Hqp]. rewrite (Q3 q Hq).
+        unfold set_dst. rewrite Hslot, hget_b_set. simpl.
+        assert (E : (p =? q) = false) by (apply N.eqb_neq; congruence). rewrite E. reflexivity. }
+      split.
+      * exists n'. split; [exact R5|]. split; [exact R6|]. intro l0. rewrite R7. simpl. rewrite Q1.
+        destruct (label_eqb l0 l) eqn:El.
+        -- apply label_eqb_eq in El. subst l0. rewrite Eo.
+           assert (Hnone : forall nx, kid_lookup l r nx = None).
+           { clear - Hnotin. induction r as [|[l1 t1] r IHr]; intro nx; simpl; [reflexivity|].
+             rewrite label_eqb_neq; [apply IHr; intro; apply Hnotin; right; assumption|].
+             intros ->. apply Hnotin. left. reflexivity. }
+           rewrite Hnone. apply kget_kset_same.
+        -- assert (l <> l0) by (intros ->; rewrite label_eqb_refl in El; discriminate).
+           destruct (kid_lookup l0 r (b_next si + tm_size t)) as [[t2 p2]|].
+           ++ destruct (is_omit t2); [apply kget_kset_other; assumption | reflexivity].
+           ++ apply kget_kset_other; assumption.
+      * intros x [pre [l0 [t0 [post [E Ho]]]]]. destruct pre as [|[l1 t1] pre].
+        -- simpl in E. inversion E; subst. rewrite kids_sz_nil, N.add_0_r in Ho.
+           assert (Hs := Q6 x Ho). assert (Hr := occ_range _ _ _ Ho).
+           destruct x as [[[[xa xm] xk] xkids] xp]. simpl in Hr. unfold node_spec in *.
+           rewrite R4; [exact Hs | rewrite Q1; lia | lia].
+        -- simpl in E. inversion E; subst. apply R8. exists pre, l0, t0, post. split; [reflexivity|].
+           rewrite Q1. rewrite kids_sz_cons in Ho.
+           replace (b_next si + tm_size t1 + kids_sz pre) with (b_next si + (tm_size t1 + kids_sz pre)) by lia. exact Ho.
+Qed.
+
+Lemma ideal_begin ty k si cf s1 s1' :
+  allocated si ->
+  begin_container ty (kind_begin k) si = Some (cf, s1) -> after_begin k cf s1 = Some s1' ->
+  frame_addr cf = Some (b_next si) /\
+  (cf = FStructKey (b_next si) \/ cf = FSlice (b_next si) 0 \/ cf = FMapKey (b_next si)) /\
+  b_next s1' = b_next si + 1 /\ allocated s1' /\ b_root s1' = b_root si /\
+  hget (b_heap s1') (b_next si) = Some (mkNode k (base_kids k)) /\
+  (forall q, q <> b_next si -> hget (b_heap s1') q = hget (b_heap si) q).
+Proof.
+  intros A Hb Ha.
+  destruct ty, k; simpl in Hb; try discriminate; inversion Hb; subst; simpl in Ha; try discriminate; inversion Ha; subst.
+  - split; [reflexivity|]. split; [auto|]. split; [reflexivity|].
+    split.
+    { intros q n. unfold b_payload. simpl. rewrite N.eqb_refl. destruct (q =? b_next si) eqn:E.
+      - apply N.eqb_eq in E. subst. intros _. lia.
+      - intro H. simpl in H. rewrite E in H. assert (q < b_next si) by (eapply A; eauto). lia. }
+    split; [reflexivity|]. split.
+    { unfold b_payload. repeat (simpl; rewrite ?N.eqb_refl). reflexivity. }
+    intros q Hq. unfold b_payload.
+    assert (E : (q =? b_next si) = false) by (apply N.eqb_neq; exact Hq).
+    repeat (simpl; rewrite ?N.eqb_refl, ?E). reflexivity.
+  - split; [reflexivity|]. split; [auto|]. split; [reflexivity|].
+    split.
+    { intros q n. simpl. destruct (q =? b_next si) eqn:E.
+      - apply N.eqb_eq in E. subst. intros _. lia.
+      - intro H. assert (q < b_next si) by (eapply A; eauto). lia. }
+    split; [reflexivity|]. split.
+    { simpl. rewrite N.eqb_refl. reflexivity. }
+    intros q Hq. simpl. assert (E : (q =? b_next si) = false) by (apply N.eqb_neq; exact Hq). rewrite E. reflexivity.
+  - split; [reflexivity|]. split; [auto|]. split; [reflexivity|].
+    split.
+    { intros q n. simpl. destruct (q =? b_next si) eqn:E.
+      - apply N.eqb_eq in E. subst. intros _. lia.
+      - intro H. assert (q < b_next si) by (eapply A; eauto). lia. }
+    split; [reflexivity|]. split.
+    { simpl. rewrite N.eqb_refl. reflexivity. }
+    intros q Hq. simpl. assert (E : (q =? b_next si) = false) by (apply N.eqb_neq; exact Hq). rewrite E. reflexivity.
+Qed.
+
+Lemma hget_set_dst_other f v s q :
+  (match slot_of f with Some sl => fst sl <> q | None => True end) ->
+  hget (b_heap (set_dst f v s)) q = hget (b_heap s) q.
+Proof.
+  unfold set_dst. destruct (slot_of f) as [sl|]; [|reflexivity]. intro H. rewrite hget_b_set.
+  assert (E : (fst sl =? q) = false) by (apply N.eqb_neq; exact H). rewrite E. reflexivity.
+Qed.
+
+Lemma ideal_val t : tm_wf t -> tm_nn t -> IdealGoal t.
+Proof.
+  induction t as [| |id|a m k kids IHk] using tm_ind'; intros Hwf Hnn f si f' si' A Hnull Hdst H.
+  - discriminate.
+  - cbn [eff_val] in H.
+    destruct (ideal_deliver None f si f' si' A) as [D1 [D2 [D3 [D4 D5]]]]; [|exact H|].
+    { intros _. unfold null_ok in Hnull. destruct f; auto. }
+    cbn [tm_size val_of]. split; [lia|]. split; [exact D2|]. split; [intros q _; apply D3|].
+    split; [exact D4|]. split; [exact D5|]. intros x Ho. inversion Ho.
+  - cbn [eff_val] in H. unfold ref_step in H. cbn [tm_size val_of].
+    destruct f; try discriminate; inversion H; subst; unfold oref_i.
+    + split; [simpl; lia|]. split; [apply allocated_b_set; exact A|]. split; [intros q _; reflexivity|].
+      split; [discriminate|]. split; [reflexivity|]. intros x Ho. inversion Ho.
+    + split; [simpl; lia|]. split; [apply allocated_b_set, allocated_b_set; exact A|].
+      split.
+      { intros q _. unfold set_dst. cbn [slot_of]. rewrite !hget_b_set. cbn [fst snd].
+        destruct (p =? q); [|reflexivity]. destruct (hget (b_heap si) q) as [n0|]; [|reflexivity].
+        cbn [option_map nkind nkids]. rewrite kset_kset. reflexivity. }
+      split; [discriminate|]. split; [reflexivity|]. intros x Ho. inversion Ho.
+    + split; [simpl; lia|]. split; [apply allocated_b_set; exact A|]. split; [intros q _; reflexivity|].
+      split; [discriminate|]. split; [reflexivity|]. intros x Ho. inversion Ho.
+  - apply tm_wf_node in Hwf. destruct Hwf as [Hok Hwk]. apply tm_nn_node in Hnn. destruct Hnn as [Hn1 Hnk].
+    cbn [eff_val] in H.
+    destruct (frame_ty f) as [ty|] eqn:Ety; [|discriminate].
+    destruct (begin_container ty (kind_begin k) si) as [[cf s1]|] eqn:Eb; [|discriminate].
+    destruct (after_begin k cf s1) as [s1'|] eqn:Ea; [|discriminate].
+    destruct (eff_kids ev_i kids cf s1') as [[cf' s2]|] eqn:Ek; [|discriminate].
+    destruct (frame_addr cf') as [p'|] eqn:Ep; [|discriminate].
+    set (p := b_next si) in *.
+    destruct (ideal_begin _ _ _ _ _ _ A Eb Ea) as [B1 [B2 [B3 [B4 [B5 [B6 B7]]]]]]. fold p in B1, B2, B3, B6, B7.
+    assert (Hfit : kids_fit cf kids) by (eapply after_begin_fit; eauto).
+    assert (Hnnc : match cf with FStructKey _ => forall l t', In (l, t') kids -> t' <> TNull | _ => True end).
+    { destruct k, cf; simpl in Ea; try discriminate; auto. }
+    assert (IHk' : Forall (fun lt : label * tm => tm_nn (snd lt) -> IdealGoal (snd lt)) kids).
+    { clear - IHk Hwk. induction kids as [|lt r IHr]; [constructor|].
+      inversion IHk; subst. inversion Hwk; subst. constructor; [auto | apply IHr; assumption]. }
+    destruct (ideal_kids kids IHk' Hnk cf s1' cf' s2 p _ B1 Hfit (proj1 Hok) Hnnc B4 B6 Ek)
+      as [R1 [R2 [R3 [R4 [[n' [R5 [R6 R7]]] R8]]]]].
+    assert (Hp' : p' = p).
+    { assert (Hc : frame_addr cf' = Some p).
+      { clear - Ek B1. revert cf s1' Ek B1. induction kids as [|[l t] r IHr]; intros cf s1' Ek B1; simpl in Ek.
+        - inversion Ek; subst. exact B1.
+        - destruct (is_omit t); [eapply IHr; eauto|].
+          destruct (kid_frame cf l) as [vf|] eqn:Ev; [|discriminate].
+          destruct (ev_i t vf s1') as [[cf1 s1'']|] eqn:E1; [|discriminate].
+          assert (cf1 = next_frame vf) by (eapply eff_val_next; eauto). subst cf1.
+          eapply IHr; [exact Ek|].
+          destruct cf, l; simpl in Ev; try discriminate.
+          + destruct (field_find _ 0 fields) as [[l' t']|]; [|discriminate]. inversion Ev; subst. exact B1.
+          + inversion Ev; subst. exact B1.
+          + inversion Ev; subst. exact B1. }
+      congruence. }
+    subst p'.
+    assert (Hsome : (Some p : ref) = None -> match f with FStructVal _ _ _ => False | _ => True end) by discriminate.
+    assert (Hs2 : (match m with Some id => omark_i (dec_bytes id) p s2 | None => s2 end) = s2) by (destruct m; reflexivity).
+    rewrite Hs2 in H.
+    destruct (ideal_deliver (Some p) f s2 f' si' R2 Hsome H) as [D1 [D2 [D3 [D4 D5]]]].
+    assert (Hq0 : match slot_of f with Some sl => fst sl <> p | None => True end).
+    { destruct (slot_of f) as [sl|]; [|exact I]. lia. }
+    rewrite tm_size_node. cbn [val_of]. fold p.
+    split; [rewrite D1, R1, B3; lia|]. split; [exact D2|].
+    split.
+    { intros q Hq. rewrite D3. apply hget_set_dst_congr. rewrite R4 by lia. apply B7. lia. }
+    split; [exact D4|]. split; [intro Hf; rewrite (D5 Hf), R3; exact B5|].
+    intros x Ho. inversion Ho as [? ? ? ? ? | ? ? ? ? ? pre l t post x0 E Ho' ]; subst.
+    + unfold node_spec. rewrite D3, hget_set_dst_other by exact Hq0.
+      exists n'. split; [exact R5|]. split; [exact R6|]. intro l. rewrite R7. rewrite B3. unfold expect.
+      destruct (kid_lookup l kids (p + 1)) as [[t pt]|]; reflexivity.
+    + assert (Hs : node_spec s2 x).
+      { apply R8. exists pre, l, t, post. split; [reflexivity|]. rewrite B3. exact Ho'. }
+      assert (Hr := occ_range _ _ _ Ho').
+      destruct x as [[[[xa xm] xk] xkids] xp]. simpl in Hr. unfold node_spec in *.
+      rewrite D3, hget_set_dst_other; [exact Hs|].
+      destruct (slot_of f) as [sl|]; [|exact I]. lia.
+Qed.
+
+End Ideal.
